@@ -75,6 +75,20 @@ fn idents(tokens: &[Tok]) -> Vec<(usize, &str)> {
 }
 
 pub fn check_record(r: &Value) -> Verdict {
+    if r["kind"].as_str() == Some("hidden_root_name") {
+        // the record names a program of the table; it is self-contained through the table's generator
+        let src = crate::exec::hidden_root_name_source(r["index"].as_u64().unwrap_or(0));
+        let tgt = Tgt::from_name(r["target"].as_str().unwrap_or("dx"));
+        return match crate::exec::check_exec_named(&src, tgt, 0x41dd, 3, &HashMap::new()) {
+            Verdict::Fail { signature, detail } => Verdict::fail(format!("exec:{}", signature), format!("{}\n{}", src, detail)),
+            Verdict::Pass { nontrivial, mut labels } => {
+                labels.retain(|l| !l.starts_with("compared_functions"));
+                labels.push("hidden_root_name".into());
+                Verdict::Pass { nontrivial, labels }
+            }
+            other => other,
+        };
+    }
     let (Some(base), Some(renamed)) = (r["base"].as_str(), r["renamed"].as_str()) else { return Verdict::Skip("incomplete record".into()) };
     let tgt = match r["target"].as_str() {
         Some(t) if ["dx", "vk", "msl"].contains(&t) => Tgt::from_name(t),
@@ -744,6 +758,12 @@ pub fn run(ctx: &mut Ctx) {
         json!({"base": base, "renamed": renamed, "map": map, "names": names, "grouped": grouped, "scopes": scopes, "expect_verbatim": [], "shared_ok": [], "class": format!("table_{}", TABLE_KINDS[k]), "target": tgt.name(), "arg_seed": 1})
     };
     ctx.run_enum("reserved_word_x_entity_kind", table.len() as u64, true, make, |i| check_record(&make(i)));
+    // ---- names of the root scope named with a leading :: where a namespace, a struct or a function declares the same
+    // name (the table of C01 / C02): the emitted reference has to reach the entity the source names
+    {
+        let make = |i: u64| json!({"kind": "hidden_root_name", "index": i / 2, "target": if i % 2 == 0 { "dx" } else { "msl" }});
+        ctx.run_enum("hidden_root_names", 96 * 2, true, make, |i| check_record(&make(i)));
+    }
     // ---- a vertex + pixel pipeline whose interface names are renamed onto reserved words: the generated entry points
     // have to follow the renamed struct, members and parameters
     {
